@@ -107,6 +107,9 @@ def _preimage_seed(V, setup, ystate):
 
 
 def run_item(cfg, tier):
+    if cfg.get("logical_dtype"):
+        from symx.array import enable_logical_dtype
+        enable_logical_dtype(True)      # forked worker: NumPy's real/complex casting rules for in-place operations
     return symbolic_run(scenario, cfg, tier, max_paths=cfg.get("max_paths", 60))
 
 
